@@ -22,11 +22,38 @@ def run(ctx):
         fams.append(("c04-nest3", progs.fam_c04_deep(ctx.seed, 20000)))
     for tag, fam in fams:
         corecheck.run_family(ctx, binp, fam, tag, env=({"VERIF_TRACE": trace} if tag != "c04-nest" or not ctx.quick() else None))
+    reentrant(ctx)
     # code -> spec: the hook traces of all those runs, and of the repository's own vm tests, against the frame machine
     rt, _ = frames.repo_test_trace(ctx)
     frames.check(ctx, "C04", [("families", trace), ("repo-vm-tests", rt)], 60000 if ctx.quick() else 600000)
     return vlib.finish(ctx, RULE, exhaustive=True)
 
 
+def reentrant(ctx):
+    """Every invocation runs in a fresh scope also when invocations of ONE function value overlap in time: the stages of C16's pipelines
+    (spec/AnkoChan.tla) are goroutines running the same script function -- taking its arguments on the direct path, with five parameters, or
+    variadic -- each with its own channels and increment as parameters; a stage that saw another stage's parameters delivers wrong items or none."""
+    import json
+    binc = vlib.build_harness(ctx, "chanharness")
+    cfgs = [{"ns": ns, "cap": cap, "items": [1, 2, 3], "expected": [v + 10 * ns for v in (1, 2, 3)], "mode": "range", "elem": "int64", "goargs": False, "shape": sh}
+            for ns in (2, 3, 6) for cap in (0, 1) for sh in ("", "fn5", "fnvar", "fnvarspread", "fn4spread")]
+    cfgs += [{"ns": w, "cap": 2, "items": list(range(1, 41)), "expected": [v + 10 for v in range(1, 41)], "mode": "range", "elem": "int64", "goargs": False, "shape": "fan"} for w in (3, 5)]
+    cp = os.path.join(ctx.work, "reentrant.ndjson")
+    vlib.write_ndjson(cp, cfgs)
+    rk = os.path.join(ctx.work, "reentrant.json")
+    vlib.run_cmd(ctx, [binc, "pipe", cp, rk, "20" if ctx.quick() else "200", str(ctx.seed)], timeout=1800)
+    r = json.load(open(rk))
+    ctx.cov["evaluations"] += r["runs"]
+    ctx.cov["traces_validated_against_impl"] += r["runs"]
+    ctx.cov["reentrant_invocations"] = {"configurations": len(cfgs), "runs": r["runs"]}
+    for m in (r.get("mismatches") or [])[:6]:
+        vlib.violation(ctx, "overlapping invocations of one function value %s: %s; expected %s, got %s" % (json.dumps(m["case"]), m["what"], m["expected"], m["got"]),
+                       {"kind": "pipe", "case": m["case"], "src": m["src"], "expected": m["expected"], "got": m["got"], "what": m["what"]})
+
+
 def replay(ctx, path):
+    import json
+    if json.load(open(path)).get("kind") == "pipe":
+        import c16
+        return c16.replay(ctx, path)
     return corecheck.replay_one(ctx, vlib.build_harness(ctx, "vmharness"), path)
